@@ -7,9 +7,13 @@
    line, after every `run` line of its own worker... (serial/thread: all teardowns after all runs, in
    reverse order of execution); a failing teardown does not prevent the others; a setup-task ran before
    its requirer and not at all when the requirer is up-to-date (second run).
+ * teardown-OUTCOME part (harness/c11_teardown.py, task definitions harness/c11_tdtasks.py): how a teardown action ends
+   (17 kinds: python / cmd-actions succeeding, FAILING WITHOUT RAISING, in error) is a generated dimension, through the
+   real classes (compared with coq/Model/Teardown.v) and the command line; oracle "a failing teardown does not prevent
+   the others" on the lines the instrumented actions wrote.
 """
 import os, subprocess, sys, tempfile, textwrap
-import common, runfam
+import common, runfam, c11_teardown
 
 DODO = textwrap.dedent('''
     import os
@@ -123,9 +127,13 @@ def run(ctx):
     out = runfam.run_property(ctx, 'C11')
     cli_part(ctx, out)
     out.rule += '; plus CLI runs (serial, -n 2 -P thread, -n 2 processes) of a dodo with delayed-created tasks, setup-tasks and teardowns (one failing)'
+    c11_teardown.teardown_part(ctx, out)
     return out
 
 
 def replay(ctx, payload):
+    case = payload.get('case') if isinstance(payload, dict) else None
+    if isinstance(case, dict) and case.get('part') == 'teardown-outcomes':
+        return c11_teardown.replay(ctx, payload)
     print(payload)
     return 0
